@@ -15,6 +15,13 @@ def apply(cfg, order, history=False, reuse=False, late=False, via_info=False, cu
         if history == "used":
             for _ in range(3):          # drawn from, seed untouched (equals the original seed)
                 s.next_float()
+        elif history == "shipped":
+            # the stream served an earlier replication (seeded by an updater), was then copied (pickle round trip / deepcopy,
+            # e.g. shipped to a worker process) and the copy is what gets updated now
+            import copy, pickle
+            SimpleStreamUpdater().update_seed(name, s, 2)
+            s.next_float()
+            s = pickle.loads(pickle.dumps(s)) if len(name) % 2 else copy.deepcopy(s)
         elif history:
             for _ in range(3):
                 s.next_float()
@@ -38,6 +45,13 @@ def apply(cfg, order, history=False, reuse=False, late=False, via_info=False, cu
             if k in streams:
                 info.add_seed_values(k, [777, 778, 779])      # configured once ...
                 info.add_seed_values(k, list(v))              # ... and configured again: the later list replaces the earlier one
+        # refused configuration calls (a list with an element that is not an int) leave nothing behind: not for a configured
+        # stream, not for one without a list
+        for name in order:
+            try:
+                info.add_seed_values(name, [5, 6, "7"])
+            except Exception:
+                pass
         up = StreamSeedUpdater(info.get_seeds())
     elif ddict:
         # the seed table is a dict subclass that invents missing keys on look-up (collections.defaultdict(list))
@@ -115,6 +129,7 @@ def main():
              "reuse": apply(cfg, names, reuse=True), "used": apply(cfg, names, history="used"), "alone": {}}
         for n in names:
             r["alone"][n] = apply(dict(cfg, streams={n: cfg["streams"][n]}), [n]).get(n)
+        r["shipped"] = apply(cfg, names, history="shipped")
         r["late"] = apply(cfg, names, late=True) if cfg["updater"] == "table" else r["base"]
         r["info"] = apply(cfg, names, via_info=True) if cfg["updater"] == "table" else r["base"]
         if cfg["updater"] == "table":
